@@ -1470,7 +1470,11 @@ func (m *Monitors) onEDS(inv *simapi.Invocation, out kit.Outcome) {
 				if c.Err == nil && c.Verb == "list" && c.Kind == simapi.KindNode {
 					for _, o := range c.Objs {
 						if n, ok := o.(*corev1.Node); ok {
-							listed[n.Name] = n
+							// (the first listing is the one the selection works on; a later one - the base of a
+							// percentage - may already show a node as another actor changed it meanwhile)
+							if _, dup := listed[n.Name]; !dup {
+								listed[n.Name] = n
+							}
 						}
 					}
 				}
